@@ -209,6 +209,62 @@ def boundary_rule(rep):
     rep.floor("C11.h", n, 3)
 
 
+def reversed_range_rule(rep):
+    from ..engines import guard
+    rep.rule("C11.i", "a reversed class range is rejected on its real end point: in RegxParser::parseCharacterClass the test that "
+             "throws Parser_Ope3 (`start > end`) is evaluated on the final value of the end point — between that test and the "
+             "addRange call that uses the end point there is no assignment to it (CFG reachability); an escaped end such as `\\t` "
+             "in `[ -\\t]` is decoded first, otherwise the letter is compared and addRange silently swaps the bounds")
+    g = core.run_xa([os.path.join(core.REPO, "src/xercesc/util/regx/RegxParser.cpp")], cfg=r"^RegxParser::parseCharacterClass$", flat=False)
+    n = 0
+    for raw in g.cfgs.get("RegxParser::parseCharacterClass", []):
+        cfg = guard.Cfg(raw)
+        for bid, blk in sorted(cfg.blocks.items()):
+            t = blk.get("term")
+            c = t and t.get("cond")
+            if not (c and c[0] == "b" and c[1] in (">", "<") and c[2][0] == "l" and c[3][0] == "l" and blk["succ"][0] is not None):
+                continue
+            # the true edge must lead to the Parser_Ope3 throw
+            seen, work, ope3 = set(), [blk["succ"][0]], False
+            while work and len(seen) < 12:
+                b = work.pop()
+                if b in seen:
+                    continue
+                seen.add(b)
+                for el in cfg.blocks[b]["els"]:
+                    x = el.get("x")
+                    if x and x[0] == "t" and "Parser_Ope3" in str(x):
+                        ope3 = True
+                if not cfg.throws(b):
+                    work.extend(cfg.succs(b))
+            if not ope3:
+                continue
+            n += 1
+            ends = [c[2][1], c[3][1]]
+            bad = []
+            seen, work = set(), [blk["succ"][1]] if blk["succ"][1] is not None else []
+            while work:
+                b = work.pop()
+                if b in seen:
+                    continue
+                seen.add(b)
+                stop = False
+                for el in cfg.blocks[b]["els"]:
+                    x = el.get("x")
+                    if x and x[0] == "b" and x[1] == "=" and x[2][0] == "l" and x[2][1] in ends:
+                        bad.append((x[2][1], el.get("l")))
+                    if any(cc[0] == "c" and cc[1].split("::")[-1] == "addRange" for cc in guard.el_top_calls(el)):
+                        stop = True
+                        break
+                if not stop:
+                    work.extend(cfg.succs(b))
+            rep.ob("C11.i", "parseCharacterClass@%s" % t.get("l"), not bad, "end points are final when the order is tested" if not bad else
+                   "RegxParser::parseCharacterClass tests the order of the range at line %s but assigns %s afterwards (line %s), before "
+                   "addRange: the test saw a different end point than the range that is built" % (t.get("l"), bad[0][0], bad[0][1]),
+                   "src/xercesc/util/regx/RegxParser.cpp:%s" % t.get("l", 0))
+    rep.floor("C11.i", n, 1)
+
+
 def run(rep):
     f = core.library_facts()
     rep.units.update(os.path.relpath(t, core.REPO) for t in f.tus)
@@ -217,6 +273,7 @@ def run(rep):
     region_rule(rep, f)
     addrange_rule(rep)
     boundary_rule(rep)
+    reversed_range_rule(rep)
     rep.rule("C11.d", "pure matching: RegularExpression::matches/tokenize/replace and every RegularExpression member they reach assign no "
              "member of the compiled expression — the answer cannot depend on earlier uses of the same compiled expression")
     C17.pure_match_rule(rep, f, "C11.d")
